@@ -3,7 +3,7 @@
    (witness traces); packing lemmas for the lock-step obligation. *)
 From Coq Require Import NArith ZArith List Bool Lia.
 Import ListNotations.
-From LunaLib Require Import Netlist Machine PackN.
+From LunaLib Require Import Netlist Machine PackN SsWords.
 From LunaModel Require Import SsSetupDec.
 Open Scope N_scope.
 
@@ -155,22 +155,24 @@ Lemma sd_dec_enc : forall st, sd_wf st -> sd_dec (sd_enc st) = st.
 Proof.
   intros [f w0 w1 out rcv] [H0 H1]. cbn [d_w0 d_w1] in *. unfold sd_dec, sd_enc.
   cbn [d_fsm d_w0 d_w1 d_out d_rcv].
+  change 3 with (N.ones 2). rewrite !N.shiftr_div_pow2, !N.land_ones. change (2 ^ 2) with 4. change (2 ^ 1) with 2.
   fold (pk (2 ^ 32) w1 out). fold (pk (2 ^ 32) w0 (pk (2 ^ 32) w1 out)).
   fold (pk 2 (b2n rcv) (pk (2 ^ 32) w0 (pk (2 ^ 32) w1 out))).
   set (rest := pk 2 (b2n rcv) (pk (2 ^ 32) w0 (pk (2 ^ 32) w1 out))).
   assert (Hf : forall k, k < 4 -> (k + 4 * rest) mod 4 = k /\ (k + 4 * rest) / 4 = rest).
   { intros k Hk. split; [apply (pk_mod 4 k rest Hk) | apply (pk_div 4 k rest Hk)]. }
   assert (Hb : b2n rcv < 2) by (destruct rcv; cbn; lia).
+  assert (Ho : N.odd rest = rcv) by (unfold rest, pk; apply SsWords.odd_b2n_add_2).
   destruct f.
-  - destruct (Hf 0 ltac:(lia)) as [-> ->]. unfold rest.
-    rewrite (pk_mod 2), (pk_div 2) by exact Hb. rewrite (pk_mod (2 ^ 32)), (pk_div (2 ^ 32)) by exact H0.
-    rewrite (pk_mod (2 ^ 32)), (pk_div (2 ^ 32)) by exact H1. destruct rcv; reflexivity.
-  - destruct (Hf 1 ltac:(lia)) as [-> ->]. unfold rest.
-    rewrite (pk_mod 2), (pk_div 2) by exact Hb. rewrite (pk_mod (2 ^ 32)), (pk_div (2 ^ 32)) by exact H0.
-    rewrite (pk_mod (2 ^ 32)), (pk_div (2 ^ 32)) by exact H1. destruct rcv; reflexivity.
-  - destruct (Hf 2 ltac:(lia)) as [-> ->]. unfold rest.
-    rewrite (pk_mod 2), (pk_div 2) by exact Hb. rewrite (pk_mod (2 ^ 32)), (pk_div (2 ^ 32)) by exact H0.
-    rewrite (pk_mod (2 ^ 32)), (pk_div (2 ^ 32)) by exact H1. destruct rcv; reflexivity.
+  - destruct (Hf 0 ltac:(lia)) as [-> ->]. rewrite Ho. unfold rest.
+    rewrite (pk_div 2) by exact Hb. rewrite (pk_mod (2 ^ 32)), (pk_div (2 ^ 32)) by exact H0.
+    rewrite (pk_mod (2 ^ 32)), (pk_div (2 ^ 32)) by exact H1. reflexivity.
+  - destruct (Hf 1 ltac:(lia)) as [-> ->]. rewrite Ho. unfold rest.
+    rewrite (pk_div 2) by exact Hb. rewrite (pk_mod (2 ^ 32)), (pk_div (2 ^ 32)) by exact H0.
+    rewrite (pk_mod (2 ^ 32)), (pk_div (2 ^ 32)) by exact H1. reflexivity.
+  - destruct (Hf 2 ltac:(lia)) as [-> ->]. rewrite Ho. unfold rest.
+    rewrite (pk_div 2) by exact Hb. rewrite (pk_mod (2 ^ 32)), (pk_div (2 ^ 32)) by exact H0.
+    rewrite (pk_mod (2 ^ 32)), (pk_div (2 ^ 32)) by exact H1. reflexivity.
 Qed.
 
 Lemma sd_data_lt : forall i, sd_data i < 2 ^ 32.
@@ -191,6 +193,7 @@ Lemma sde_dec_enc : forall s, sde_wf s -> sde_dec (sde_enc s) = s.
 Proof.
   intros [st e] H. unfold sde_dec, sde_enc, sde_wf in *. cbn [fst snd] in *.
   assert (Hc : sd_est_code e < 4) by (destruct e; cbn; lia).
+  change 3 with (N.ones 2). rewrite N.shiftr_div_pow2, N.land_ones. change (2 ^ 2) with 4.
   fold (pk 4 (sd_est_code e) (sd_enc st)). rewrite pk_mod, pk_div by exact Hc.
   rewrite sd_dec_enc by exact H. destruct e; reflexivity.
 Qed.
